@@ -474,6 +474,41 @@ def xrun (decodes : Bytes → Bool) : Sys → List XOp → Sys × List Out
     let (s2, os) := xrun decodes s1 ops
     (s2, o :: os)
 
+/- ------------------------------------------------ Buffer, directly -- -/
+
+/-- the public `Buffer` operations `Channel` is built on, with arbitrary
+    arguments (`Channel` only ever calls some of them under guards) -/
+inductive BOp where
+  | write (bytes : Bytes)     -- `io::Write::write`: copies min(len, space) bytes, `fill`
+  | consume (n : Nat)
+  | shift
+  | grow (n : Nat)
+  | shrink (n : Nat)
+  | reset
+  | read (n : Nat)            -- `io::Read::read` into an n-byte buffer: advances `position` only
+deriving Repr, DecidableEq, Inhabited
+
+def bstep (b : Buffer) : BOp → Buffer × Nat
+  | .write bytes =>
+    let n := min bytes.length b.availSpace
+    (b.fill (bytes.take n), n)
+  | .consume n => (b.consume n, min n b.availData)
+  | .shift => (b.shift, 0)
+  | .grow n => (b.grow n, if b.cap ≥ n then 0 else 1)
+  | .shrink n =>
+    (b.shrink n, if n ≥ b.cap then 0 else if b.shift.fin > n then 0 else 1)
+  | .reset => ({ b with pos := 0, fin := 0, data := [] }, 0)
+  | .read n =>
+    let len := min b.availData n
+    ({ b with pos := b.pos + len, data := b.data.drop len }, len)
+
+def brun : Buffer → List BOp → Buffer × List Nat
+  | b, [] => (b, [])
+  | b, op :: ops =>
+    let (b1, o) := bstep b op
+    let (b2, os) := brun b1 ops
+    (b2, o :: os)
+
 /- ------------------------------------------------- worker-side spec -- -/
 
 /-- Spec of the command channel's *user* (`lib/src/server.rs`: requests read
